@@ -339,6 +339,52 @@ Proof.
   split; mat_eq; field.
 Qed.
 
+(* rotations with a compound angle argument: the generated code is the rotation by the value of the argument *)
+Definition envAC (a c : R) : env := env_of [("a", a); ("c", c)].
+Ltac unify_trig_args :=
+  repeat match goal with
+         | |- ?lhs = ?rhs =>
+             match lhs with context [cos ?x] =>
+               match rhs with context [cos ?y] => tryif constr_eq x y then fail else (replace x with y by field) end end
+         | |- ?lhs = ?rhs =>
+             match lhs with context [sin ?x] =>
+               match rhs with context [sin ?y] => tryif constr_eq x y then fail else (replace x with y by field) end end
+         end.
+Ltac compound_entry :=
+  rewrite ?cos_neg, ?sin_neg;
+  first [ reflexivity | field
+        | (unify_trig_args; first [reflexivity | field])
+        | (rewrite ?cos_plus, ?sin_plus, ?cos_minus, ?sin_minus; field) ].
+Ltac compound_rot :=
+  unfold envAC, envA; mat_simpl; den_simpl;
+  repeat match goal with |- _ /\ _ => split end;
+  mat_eq; compound_entry.
+Lemma rot_compound_numpy_eq a c :
+  (denM (envAC a c) roty_sum_numpy_cse = denM (envA (a + c)) roty_explicit /\
+   denM (envAC a c) roty_sum_numpy_nocse = denM (envA (a + c)) roty_explicit /\
+   denM (envAC a c) rotz_sum_numpy_cse = denM (envA (a + c)) rotz_explicit /\
+   denM (envAC a c) rotz_sum_numpy_nocse = denM (envA (a + c)) rotz_explicit) /\
+  (denM (envAC a c) roty_diff_numpy_cse = denM (envA (a - c)) roty_explicit /\
+   denM (envAC a c) roty_diff_numpy_nocse = denM (envA (a - c)) roty_explicit /\
+   denM (envAC a c) rotz_diff_numpy_cse = denM (envA (a - c)) rotz_explicit /\
+   denM (envAC a c) rotz_diff_numpy_nocse = denM (envA (a - c)) rotz_explicit) /\
+  (denM (envAC a c) roty_triple_numpy_cse = denM (envA (3 * a)) roty_explicit /\
+   denM (envAC a c) roty_triple_numpy_nocse = denM (envA (3 * a)) roty_explicit /\
+   denM (envAC a c) rotz_triple_numpy_cse = denM (envA (3 * a)) rotz_explicit /\
+   denM (envAC a c) rotz_triple_numpy_nocse = denM (envA (3 * a)) rotz_explicit) /\
+  (denM (envAC a c) roty_neg_numpy_cse = denM (envA (- a)) roty_explicit /\
+   denM (envAC a c) roty_neg_numpy_nocse = denM (envA (- a)) roty_explicit /\
+   denM (envAC a c) rotz_neg_numpy_cse = denM (envA (- a)) rotz_explicit /\
+   denM (envAC a c) rotz_neg_numpy_nocse = denM (envA (- a)) rotz_explicit).
+Proof.
+  unfold roty_sum_numpy_cse, roty_sum_numpy_nocse, rotz_sum_numpy_cse, rotz_sum_numpy_nocse,
+    roty_diff_numpy_cse, roty_diff_numpy_nocse, rotz_diff_numpy_cse, rotz_diff_numpy_nocse,
+    roty_triple_numpy_cse, roty_triple_numpy_nocse, rotz_triple_numpy_cse, rotz_triple_numpy_nocse,
+    roty_neg_numpy_cse, roty_neg_numpy_nocse, rotz_neg_numpy_cse, rotz_neg_numpy_nocse,
+    roty_explicit, rotz_explicit.
+  compound_rot.
+Qed.
+
 (* ---------- metric and space inversion ---------- *)
 Lemma metric_numpy_eq E x y z :
   denM (envP E x y z) metric_numpy = etaM /\ denM (envP E x y z) metric_explicit = etaM.
